@@ -3,6 +3,7 @@ CONSTANTS
   MaxLen = 2
   NSeed = 3
   EmitLen = 99
+  OpFilter <- AllOps
   NParam = 2
 INVARIANT WellTyped
 CHECK_DEADLOCK FALSE
